@@ -479,7 +479,7 @@ def bounded(tier, seed):
     evaluations += stats["placements"] - before
     standins.append(dict(name="P1 strings at every argument position: 1-3 actions (with_action / from_arguments), links nested 1-3 deep, "
                               "transform and resource segment-header parameters", labelled="bounded",
-                         bound="%d of %d strings (all %d of length <= %d over the alphabet, %d of length 2, %d random long) rotated through every position "
+                         bound="%d of %d strings (all %d of length <= %d over the alphabet, %d more of length 2, %d random long) rotated through every position "
                                "of %d query forms; all combinations of '', 'p', '-' in every form" % (
                                    done, len(placed), nshort, 1 if quick else 2, ntwo, nlong, len(forms)),
                          cases=stats["placements"] - before, exhaustive=False))
@@ -539,11 +539,14 @@ def replay(doc):
         return dict(confirmed=False, note="no string in the counter-model inputs")
     col = Collector()
     stats = dict(parses=0, placements=0, packed=0)
+    fn = str(doc.get("obligation", "")).split("#")[0]
+    token_level = fn.endswith(("encode_token", "decode_token", "parser.encode", "parser.decode"))
     for s in strings:
         token_check(s, col)
         lol_check(["n", s, s], col)
         if s:
             lol_check([s], col)
-    place(strings, list(FORMS), col, stats)
+    if not token_level:         # obligations about parameters / parse: the strings at every argument position of every form
+        place(strings, list(FORMS), col, stats)
     v = col.result()
     return dict(confirmed=bool(v), inputs=dict(strings=[show(s) for s in strings[:6]]), violations=v[:4])
